@@ -12,7 +12,7 @@ import os
 import random
 import xml.parsers.expat
 
-from vlib import build_harness, log, ToolError, translate, tlc, write_ndjson, REPO, QT5_METATYPES, VERIF_T_METATYPES
+from vlib import build_harness, build_cli, log, ToolError, translate, tlc, write_ndjson, REPO, QT5_METATYPES, VERIF_T_METATYPES
 from vlib import trees as T
 from checks import c12
 
@@ -163,6 +163,37 @@ def read_strings(ui_xml):
     return got
 
 
+def cli_written(chk, qmluic):
+    """what the command-line tool actually leaves on disk, in normal runs and when the file system accepts only part of a write
+    (RLIMIT_FSIZE with SIGXFSZ ignored: write() returns a short count, then EFBIG): [(id, source, text of a .ui found afterwards)]"""
+    import resource
+    import shutil
+    import signal
+    import subprocess
+    import tempfile
+    found = []
+    srcs = sorted(glob.glob(os.path.join(REPO, "examples", "*.qml")))
+    for f in srcs:
+        for limit in (None, 300, 1500, 4000, 12000):
+            d = tempfile.mkdtemp(prefix="c09-", dir=chk.work)
+            shutil.copy(f, d)
+            name = os.path.basename(f)
+
+            def pre(limit=limit):
+                if limit is not None:
+                    signal.signal(signal.SIGXFSZ, signal.SIG_IGN)
+                    resource.setrlimit(resource.RLIMIT_FSIZE, (limit, limit))
+            p = subprocess.run([qmluic, "generate-ui", "--foreign-types", QT5_METATYPES, name], cwd=d, capture_output=True, text=True, preexec_fn=pre, timeout=60)
+            chk.count({"cli": name, "fsize": limit}, nontrivial=limit is not None)
+            for g in glob.glob(os.path.join(d, "*.ui")):
+                text = open(g, "rb").read().decode("utf-8", "replace")
+                found.append(("written by the tool for %s (file size limit %s, exit %d)" % (name, limit, p.returncode), open(f).read(), text, name[:-4]))
+            if limit is None and p.returncode == 0 and not glob.glob(os.path.join(d, "*.ui")):
+                raise ToolError("no .ui written for %s" % name)
+            shutil.rmtree(d, ignore_errors=True)
+    return found
+
+
 def run(chk):
     build_harness()
     quick = chk.tier == "quick"
@@ -226,6 +257,9 @@ def run(chk):
             k0 = sorted(bad)[0]
             chk.violation("string (%s) %r is not preserved at %s: read back %r" % (what, s, k0, bad[k0][0]),
                           {"qml": sreqs[n]["src"], "ui": ui, "mismatches": {k: {"read_back": g, "source": w} for k, (g, w) in bad.items()}})
+    for what, src, ui, tn in cli_written(chk, build_cli()):
+        recs.append({"id": len(recs) + 1, "typename": tn, "events": events(ui)})
+        back.append((what, src, ui))
     path = os.path.join(chk.work, "ui.ndjson")
     write_ndjson(path, recs)
     rt = tlc("UiGrammar", env={"RECS": path}, workers=8, timeout=3000, heap="8g", extra=["-continue"], coverage=False)
